@@ -5,7 +5,7 @@
    vocabulary, or the assignment of a set constructed with an explicit comparator; fs_step3/run3);
    specification: std::set, whose iterator-range constructor takes the comparator the same way
    ([set.cons]), s_step3/s_run3. *)
-From Tetl Require Import Lib.Base C06a.Model C09.Ops C09.Model C09.Spec C09.ModelCmp C09.ModelCtor C09.Instances
+From Tetl Require Import Lib.Base C06a.Model C09.Ops C09.Model C09.Spec C09.ModelCmp C09.ModelCtor C09.Instances C09.InstancesT
   C09.ProofsCore C09.ProofsRun C09.ProofsCmp C09.ProofsCtor C09.ProofsMain.
 
 (** For every element type, every history over the common vocabulary plus the two constructors with
@@ -80,3 +80,13 @@ Proof.
   split; [apply (proj1 (is_set_b_spec _ _)); reflexivity|]. vm_compute fs_step3. cbn [fst snd is_contract]. right.
   split; [exact I|]. vm_compute fs_step3. cbn [fst snd is_contract]. left. reflexivity.
 Qed.
+
+(* (review) the heterogeneous keys of the harness's second transparent comparator, etl::greater<>, satisfy the
+   hypothesis of C09_lookup_heterogeneous_refines_std / C09_set_refines_std (cut_ok under the descending order),
+   and a lookup through them on a descending set is in the theorems' domain *)
+Example C09_tgreater_keys_nonvacuous :
+  (forall v, cut_ok cmp_greater (point_cut_g v))
+  /\ (forall lo hi, (lo <= hi)%Z -> cut_ok cmp_greater (band_cut_g lo hi))
+  /\ ask StaticSet true (band_cut_g 2 3) [5%Z; 3%Z; 2%Z; 0%Z]
+     = Ok {| a_find := 1; a_count := 2; a_contains := true; a_lower := 1; a_upper := 3; a_range := (1, 3) |}.
+Proof. split; [exact point_cut_g_ok|]. split; [exact band_cut_g_ok|]. vm_compute. reflexivity. Qed.
